@@ -841,8 +841,13 @@ func (e *Engine) havocLoop(st *State, li *loopInfo) {
 			heaps[h] = true
 		}
 	}
+	if li.hasUnknownCall || e.loopRunsClosures(li) {
+		// a function value called in the loop (directly or inside a closure the loop creates) may be one of the
+		// closures this execution knows: what they write is no longer what it was before the loop
+		e.havocKnownClosureWrites(st)
+	}
 	if li.hasUnknownCall {
-		e.noteAssumption("dynamic calls inside loops are assumed not to modify tracked heap state unless they have a contract")
+		e.noteAssumption("dynamic calls inside loops are assumed not to modify tracked heap state unless they have a contract or are closures of the function under verification")
 	}
 	for h := range heaps {
 		e.heapHavoc(st, h)
@@ -984,8 +989,16 @@ func (e *Engine) anchorsOf(fn *ssa.Function) map[ssa.Instruction]string {
 
 func (e *Engine) anchorInLoop(fn *ssa.Function, anchor string, li *loopInfo) bool {
 	anchor = strings.TrimPrefix(anchor, "after ")
+	wild := strings.HasSuffix(anchor, "#*") || strings.HasSuffix(anchor, "#?")
 	for in, name := range e.anchorsOf(fn) {
-		if name == anchor || (strings.HasSuffix(name, "#1") && strings.TrimSuffix(name, "#1") == anchor) {
+		match := name == anchor || (strings.HasSuffix(name, "#1") && strings.TrimSuffix(name, "#1") == anchor)
+		if wild {
+			// every occurrence of the anchor: a ghost updated at any of them inside the loop changes in the loop
+			if i := strings.LastIndex(name, "#"); i >= 0 && name[:i] == anchor[:len(anchor)-2] {
+				match = true
+			}
+		}
+		if match {
 			if li.body[in.Block()] {
 				return true
 			}
